@@ -235,4 +235,6 @@ prop("WIP", "work in progress batch", [], [], [], [
 ])
 prop("PROBE", "probes", [], [], [], [
     H("probe_default_cfg", "probe", timeout=600),
+    H("s00_smoke", "gen_brl::h", crate="shadow", timeout=600),
+    H("c19_two_ops_from_empty", "gen_brl::h", crate="shadow", timeout=1500),
 ])
